@@ -1,0 +1,75 @@
+//go:build verif
+
+package router
+
+import "github.com/gammazero/nexus/v3/wamp"
+
+// VerifSnapshot returns, per realm, the sizes of the realm's, broker's and
+// dealer's tables. Each set of sizes is read inside the goroutine that owns
+// the tables. Read-only; for verification builds only (build tag verif).
+func VerifSnapshot(rtr Router) map[wamp.URI]map[string]int {
+	r, ok := rtr.(*router)
+	if !ok {
+		return nil
+	}
+	realms := map[wamp.URI]*realm{}
+	done := make(chan struct{})
+	if !r.submit(func() {
+		for uri, rlm := range r.realms {
+			realms[uri] = rlm
+		}
+		close(done)
+	}) {
+		return nil
+	}
+	<-done
+	out := map[wamp.URI]map[string]int{}
+	for uri, rlm := range realms {
+		m := map[string]int{}
+		sync := make(chan struct{})
+		rlm.actionChan <- func() {
+			m["realm.clients"] = len(rlm.clients)
+			m["realm.testaments"] = len(rlm.testaments)
+			close(sync)
+		}
+		<-sync
+		b := rlm.broker
+		sync = make(chan struct{})
+		b.actionChan <- func() {
+			m["broker.topicSubscription"] = len(b.topicSubscription)
+			m["broker.pfxTopicSubscription"] = len(b.pfxTopicSubscription)
+			m["broker.wcTopicSubscription"] = len(b.wcTopicSubscription)
+			m["broker.subscriptions"] = len(b.subscriptions)
+			m["broker.sessionSubIDSet"] = len(b.sessionSubIDSet)
+			m["broker.eventHistoryStore"] = len(b.eventHistoryStore)
+			n := 0
+			for _, s := range b.subscriptions {
+				n += len(s.subscribers)
+			}
+			m["broker.subscribers"] = n
+			close(sync)
+		}
+		<-sync
+		d := rlm.dealer
+		sync = make(chan struct{})
+		d.actionChan <- func() {
+			m["dealer.procRegMap"] = len(d.procRegMap)
+			m["dealer.pfxProcRegMap"] = len(d.pfxProcRegMap)
+			m["dealer.wcProcRegMap"] = len(d.wcProcRegMap)
+			m["dealer.registrations"] = len(d.registrations)
+			m["dealer.calls"] = len(d.calls)
+			m["dealer.invocations"] = len(d.invocations)
+			m["dealer.invocationByCall"] = len(d.invocationByCall)
+			m["dealer.calleeRegIDSet"] = len(d.calleeRegIDSet)
+			n := 0
+			for _, reg := range d.registrations {
+				n += len(reg.callees)
+			}
+			m["dealer.callees"] = n
+			close(sync)
+		}
+		<-sync
+		out[uri] = m
+	}
+	return out
+}
